@@ -469,7 +469,9 @@ def replay_witnesses(ctx, pid, env, cases=None):
 
 def run_replay(ctx, pid, env):
     d = json.load(open(ctx.replay))
-    w = d.get("replay", d)
+    w = d.get("replay", d) if isinstance(d, dict) else None
+    if not isinstance(w, dict) or "scenario" not in w:
+        return False          # a file that names a broken obligation only (no-failing-input-found) or an informational list: run the check itself
     scn = w["scenario"]
     seqs = conc.sequential_runs(env, scn)
     res = conc.run_concurrent(env, scn, seed=w["seed"], schedule=w.get("schedule"))
@@ -493,8 +495,7 @@ def run_property(ctx, pid):
     logging.disable(logging.CRITICAL)          # the implementation logs every refused operation; they are results here
     env = N.setup()
     conc.install(env)
-    if ctx.replay:
-        run_replay(ctx, pid, env)
+    if ctx.replay and run_replay(ctx, pid, env) is not False:
         return env, {}, []
     thorough = ctx.tier == "thorough"
     cases = []
